@@ -100,6 +100,17 @@ class ListPlugin:
             s, v = eng.ev1(e.args[0], st)
             if v.s == LR: return [(s, self.length(eng, s, v, e))]
             return NotImplemented
+        if isinstance(f, ast.Name) and f.id == 'list' and len(e.args) == 1:
+            s, v = eng.ev1(e.args[0], st)
+            if v.s not in (LR, LT): return NotImplemented
+            lv = self.listval(eng, s, v, e.lineno)
+            r = fresh('newlist', LR); s.assume(r != LR.null)
+            if v.s == LR: s.assume(r != v.e)                          # list(x) allocates a new list object with the same elements
+            for fld in ('_Task__children', '_Task__predecessors', '_Task__successors'):
+                arr = eng.field(s, 'Task', fld); tt = Const('tt_', T.z)
+                s.assume(ForAll([tt], arr[tt] != r, patterns=[arr[tt]]))
+            eng.write(s, 'PyList.elems', Store(eng.field(s, 'PyList', 'elems'), r, lv))
+            return [(s, V(r, LR))]
         if isinstance(f, ast.Attribute) and f.attr in ('append', 'remove', 'clear'):
             out = []
             for s, recv in eng.ev(f.value, st):
